@@ -246,7 +246,7 @@ pub const LINK_MUTATIONS: &[&str] = &[
     "speed_nan", "speed_limits_duplicate_pair", "speed_limits_unsorted", "speed_limit_end_inf",
     "speed_param_negative", "speed_param_axles_fractional", "speed_params_duplicate", "speed_param_nan",
     "cat_negative_start", "cat_start_after_end", "cat_negative_power", "cat_overlap", "cat_beyond_length", "cat_power_nan", "cat_disjoint_added",
-    "idx_curr_off_by_one", "idx_curr_zero", "flip_is_self", "flip_not_mutual", "flip_one_sided_to_lower", "flip_one_sided_to_higher", "flip_claims_paired_lower", "flip_equals_next", "next_not_reciprocated", "prev_not_reciprocated",
+    "idx_curr_off_by_one", "idx_curr_zero", "flip_is_self", "flip_not_mutual", "flip_one_sided_to_lower", "flip_one_sided_to_higher", "flip_claims_paired_lower", "flip_equals_next", "next_not_reciprocated", "prev_not_reciprocated", "next_alt_not_reciprocated", "prev_alt_not_reciprocated",
     "next_alt_without_next", "prev_alt_without_prev", "coincident_switch_points",
     "flip_out_of_range", "next_out_of_range", "next_alt_out_of_range", "prev_out_of_range", "prev_alt_out_of_range", "ref_u32_max",
     "lockout_out_of_range", "lockout_u32_max",
@@ -322,6 +322,11 @@ pub fn mutate_link(name: &str, n: &mut Vec<LinkM>, k: usize, r: &mut Rng) -> Opt
         "flip_equals_next" => { if l.next == 0 { return None; } l.flip = l.next; Reject }
         "next_not_reciprocated" => { if total < 3 { return None; } let o = other(k, total); let t = &n[o as usize]; if t.prev == k as u32 || t.prev_alt == k as u32 { return None; } n[k].next = o; Reject }
         "prev_not_reciprocated" => { if total < 3 { return None; } let o = other(k, total); let t = &n[o as usize]; if t.next == k as u32 || t.next_alt == k as u32 { return None; } n[k].prev = o; Reject }
+        // the ALTERNATE successor / predecessor names a link that does not point back (the primary one stays as it is)
+        "next_alt_not_reciprocated" => { if total < 4 || l.next == 0 || l.next_alt != 0 { return None; } let nx = l.next;
+            let o = (1..total).find(|o| *o != k as u32 && *o != nx && n[*o as usize].prev != k as u32 && n[*o as usize].prev_alt != k as u32 && *o != n[k].flip)?; n[k].next_alt = o; Reject }
+        "prev_alt_not_reciprocated" => { if total < 4 || l.prev == 0 || l.prev_alt != 0 { return None; } let pv = l.prev;
+            let o = (1..total).find(|o| *o != k as u32 && *o != pv && n[*o as usize].next != k as u32 && n[*o as usize].next_alt != k as u32 && *o != n[k].flip)?; n[k].prev_alt = o; Reject }
         "next_alt_without_next" => { if l.next != 0 { return None; } l.next_alt = other(k, total); if total < 3 { l.next_alt = k as u32; } Reject }
         "prev_alt_without_prev" => { if l.prev != 0 { return None; } l.prev_alt = other(k, total); if total < 3 { l.prev_alt = k as u32; } Reject }
         "coincident_switch_points" => {
